@@ -32,6 +32,7 @@ struct St { int a; long b; int* p; };
   f(int*, p, FIELD_NORMAL, ##__VA_ARGS__) g()
 #define sandbox_fields_reflection_m2_allClasses(f, ...) f(St, m2, ##__VA_ARGS__)
 rlbox_load_structs_from_library(m2);
+struct ConvP { operator int*() const; };      // a class that converts implicitly to a raw pointer
 using Fn = int (*)(int);
 using Fn2 = void (*)(char*, long);
 template<typename T> using T_ = rlbox::tainted<T, S>;
@@ -56,7 +57,7 @@ struct Env
   // wrappers that belong to ANOTHER sandbox type
   rlbox::tainted<int, S2>& x_int; rlbox::tainted<int*, S2>& x_pint; rlbox::sandbox_callback<Fn, S2>& x_cb;
   // plain application values
-  int p_int; bool p_bool; long p_long; int* p_pint; const char* p_pcchar; char* p_pchar; void* p_pvoid; Fn p_fn; int p_arr[4]; St p_st; int* p_parr[2]; St* p_pst; std::array<int*, 2> p_sarr;
+  int p_int; bool p_bool; long p_long; int* p_pint; const char* p_pcchar; char* p_pchar; void* p_pvoid; Fn p_fn; int p_arr[4]; St p_st; int* p_parr[2]; St* p_pst; std::array<int*, 2> p_sarr; ConvP p_convp;
 };
 void take_int(int); void take_bool(bool); void take_long(long); void take_pint(int*); void take_pcchar(const char*); void take_pvoid(void*);
 void take_double(double); void take_fn(Fn); void take_st(St); void take_uchar(unsigned char); void take_ullong(unsigned long long); void take_en(En);
